@@ -226,6 +226,32 @@ func (s *Sim) CheckCommit(what string, c *channeldb.ChannelCommitment,
 		}
 	}
 
+	// Every stored HTLC must still be the update_add_htlc that was sent:
+	// onion blob, blinding point and custom records included.
+	for i := range c.Htlcs {
+		h := &c.Htlcs[i]
+		inc := h.Incoming
+		if !ownerIsLocal {
+			inc = !inc
+		}
+		for _, l := range e.Live {
+			if (l.From != o) != inc || l.ID != h.HtlcIndex || l.Msg == nil {
+				continue
+			}
+			re := &lnwire.UpdateAddHTLC{
+				ChanID: l.Msg.ChanID, ID: h.HtlcIndex, Amount: h.Amt,
+				PaymentHash: h.RHash, Expiry: h.RefundTimeout,
+				OnionBlob: h.OnionBlob, BlindingPoint: h.BlindingPoint,
+				CustomRecords: h.CustomRecords,
+			}
+			if err := sameUpdate(re, l.Msg); err != nil {
+				return violationf("%s: stored HTLC %d differs from "+
+					"the update_add_htlc that was sent: %v", what,
+					h.HtlcIndex, err)
+			}
+		}
+	}
+
 	// Output values of the transaction: to_local, to_remote (each only
 	// if >= the owner's dust limit), non-dust HTLCs, anchors.
 	var want []int64
